@@ -103,6 +103,28 @@ func c01LayoutPredicates(src []byte) []string {
 			}
 		}
 	}
+	// an own-line comment block that follows a blank line and is directly followed by a case /
+	// default line that is indented LESS than the comment ("hanging" comment at the end of a
+	// clause body): gofmt keeps the body-level indentation because of the comment's original
+	// column; dst attaches the comment to the next clause and prints it at clause level
+	for i := 1; i+1 < len(lines); i++ {
+		t := strings.TrimLeft(lines[i], "\t")
+		if !(strings.HasPrefix(t, "//") || strings.HasPrefix(t, "/*")) || strings.TrimSpace(lines[i-1]) != "" {
+			continue
+		}
+		j := i
+		for j < len(lines) && (strings.HasPrefix(strings.TrimLeft(lines[j], "\t"), "//") || strings.HasPrefix(strings.TrimLeft(lines[j], "\t"), "/*") || strings.HasSuffix(strings.TrimSpace(lines[j]), "*/")) {
+			j++
+		}
+		if j >= len(lines) {
+			break
+		}
+		nt := strings.TrimLeft(lines[j], "\t")
+		if (strings.HasPrefix(nt, "case ") || strings.HasPrefix(nt, "default:")) && len(lines[j])-len(nt) < len(lines[i])-len(t) {
+			ps = append(ps, "hanging-comment-after-blank-line-before-case")
+			break
+		}
+	}
 	return ps
 }
 
